@@ -61,6 +61,11 @@ inductive Res
   | visits (l : Entries)                              -- in the order reported
   deriving DecidableEq, Repr
 
+/-- A callback that looks its key up again while it runs (the harness operation `lwfr`): the value it was called with must be
+    the entry the map holds under the key at that moment - the callback runs inside the critical section that found the value,
+    so nothing can have removed or replaced it. `arg` = what the callback was given, `reread` = what it read itself. -/
+def cbCurrent (arg reread : Option Val) : Bool := arg == reread
+
 /-- Operations, including the state a multi-step operation is in while it is pending (`range`, `sweep`). -/
 inductive Op
   | store (k : Nat) (v : Val)
